@@ -88,6 +88,9 @@ PROFILES = {
     # larger trees / weighted collections
     "lean": dict(cons=("TreeArray.consensus_tree",), cons_few=("TreeList.consensus", "SplitDistribution.consensus_tree"),
                  few=lambda menu: ("default", menu[0]), summ=True, settings=False, collapse=True, mcc=True, extra=False),
+    # use_tree_weights=False on weighted trees: frequency tables, consensus at the default and lowest threshold
+    "flagoff": dict(cons=(), cons_few=("TreeArray.consensus_tree", "TreeList.consensus"), few=lambda menu: ("default", menu[0]),
+                    summ=True, settings=False, collapse=False, mcc=False, extra=False),
     "freq": dict(cons=(), cons_few=(), few=lambda menu: (), summ=False, settings=False, collapse=False, mcc=False, extra=False),
     "ages": dict(cons=("TreeArray.consensus_tree",), cons_few=("TreeList.consensus",), few=lambda menu: ("default", menu[0]), summ=True, settings=True,
                  collapse=False, mcc=True, extra=False),
@@ -103,6 +106,7 @@ SETTINGS = {
     "attr-only": {"add_support_as_node_annotation": False, "add_edge_length_summaries_as_edge_annotations": False,
                   "add_node_age_summaries_as_node_annotations": False},
 }
+ATTR_ONLY = SETTINGS["attr-only"]
 AGE_SETTINGS = {
     "default": {},
     "mean-age": {"set_edge_lengths": "mean-age"},
@@ -518,7 +522,7 @@ def check_summary(c, tree, route, setting, kw, ctx, detail):
                 else:
                     good = g is not MISSING and feq(g, w)
                 if not good:
-                    ctx.violation(sig0 + "%s|%s" % (name, c.tag),
+                    ctx.violation(sig0 + "edge-length-summary|%s" % c.tag,
                                   "edge of split %s: %s = %r, reference over values %r is %r" % (
                                       c.show(key), name, None if g is MISSING else g, vals, w),
                                   c.case(route=route, setting=setting, split=c.show(key), **detail))
@@ -543,7 +547,7 @@ def check_summary(c, tree, route, setting, kw, ctx, detail):
                     else:
                         good = g is not MISSING and feq(g, w)
                     if not good:
-                        ctx.violation(sig0 + "%s|%s" % (name, c.tag),
+                        ctx.violation(sig0 + "node-age-summary|%s" % c.tag,
                                       "node of split %s: %s = %r, reference over ages %r is %r" % (
                                           c.show(key), name, None if g is MISSING else g, av, w),
                                       c.case(route=route, setting=setting, split=c.show(key), **detail))
@@ -820,17 +824,21 @@ def check_collection(cfg, ctx):
                 continue
             ctx.case(("cons", c.base_key, t, route), nontrivial=nt)
             ctx.count("consensus_trees")
-            summ = t in few and (t == "default" or route in P["cons"])
+            summ = t in few and (t == "default" or route in P["cons"] or c.profile == "flagoff")
             try:
-                C = call_consensus(route, tl, ta2 if route == "TreeArray.consensus_tree" and t == "default" else ta, sd, t, c,
-                                   {} if summ else {"summarize_splits": False})
+                ckw = {}
+                if not summ:
+                    ckw = {"summarize_splits": False}
+                elif c.profile in ("lean", "flagoff") and t != "default":
+                    ckw = ATTR_ONLY
+                C = call_consensus(route, tl, ta2 if route == "TreeArray.consensus_tree" and t == "default" else ta, sd, t, c, ckw)
             except Exception as e:
                 ctx.violation("consensus:%s|exception|%s" % (route, type(e).__name__), repr(e), c.case(route=route, t=t))
                 continue
             if check_consensus(c, C, t_eff, route, ctx, {"t": t}) and summ:
                 ctx.case(("cons-summ", c.base_key, t, route), nontrivial=nt)
                 ctx.count("summarisations")
-                check_summary(c, C, route, "default", {}, ctx, {"t": t, "target": "consensus"})
+                check_summary(c, C, route, "default", ckw, ctx, {"t": t, "target": "consensus"})
         if P["collapse"] and ok_ta:
             for i in members:
                 ctx.case(("collapse", c.base_key, t, i), nontrivial=nt)
@@ -854,47 +862,57 @@ def check_collection(cfg, ctx):
         else:
             settings = {"default": {}}
         targets = [(c.sns[i], "member") for i in members] + [(sn, "non-member") for sn in extra]
-        for sn, what in targets:
+        full_settings = c.profile == "full" or len(c.shapes) <= 2
+        for ti, (sn, what) in enumerate(targets):
             for sname, kw in settings.items():
                 if not c.has_lengths and kw.get("set_edge_lengths") in ("mean-length", "median-length"):
                     continue
                 if what == "non-member" and sname not in ("default", "pct-label"):
                     continue
+                if ti > 0 and what == "member" and sname != "default" and not full_settings:
+                    continue  # larger collections: every setting on the first member, the default on all
                 for route, obj, good in (("SplitDistribution.summarize_splits_on_tree", sd, ok_sd),
                                          ("TreeArray.summarize_splits_on_tree", ta, ok_ta)):
                     if not good:
                         continue
-                    if route.startswith("TreeArray") and (sname != "default" or (not P["settings"] and sn is not targets[0][0])):
+                    if route.startswith("TreeArray") and (sname != "default" or (not P["settings"] and ti > 0)):
                         continue
+                    kw2 = kw
+                    if c.profile == "lean" and route.startswith("TreeArray"):
+                        kw2 = ATTR_ONLY
                     ctx.case(("summ", c.base_key, route, sname, ref.to_newick(sn, False)), nontrivial=nt or what == "non-member")
                     ctx.count("summarisations")
                     tree = c.fresh_from(sn)
                     try:
-                        obj.summarize_splits_on_tree(tree, **kw)
+                        obj.summarize_splits_on_tree(tree, **kw2)
                     except Exception as e:
                         ctx.violation("summarize:%s|exception|%s" % (route, type(e).__name__), repr(e),
                                       c.case(route=route, setting=sname, target=ref.to_newick(sn)))
                         continue
-                    check_summary(c, tree, route, sname, kw, ctx, {"target": ref.to_newick(sn), "target_kind": what})
-        # settings through the consensus routes (default threshold and the lowest one)
+                    check_summary(c, tree, route, sname, kw2, ctx, {"target": ref.to_newick(sn), "target_kind": what})
+        # settings through the consensus routes: TreeArray at the default threshold, TreeList at the lowest one
+        # (small collections: both routes at both thresholds)
         if len(settings) > 1 and ok_ta:
             for sname, kw in settings.items():
                 if sname == "default":
                     continue
                 if not c.has_lengths and kw.get("set_edge_lengths") in ("mean-length", "median-length"):
                     continue
-                for t in ("default", menu[0]):
-                    for route in ("TreeArray.consensus_tree", "TreeList.consensus"):
-                        ctx.case(("cons-setting", c.base_key, t, route, sname), nontrivial=nt)
-                        ctx.count("consensus_trees")
-                        ctx.count("summarisations")
-                        try:
-                            C = call_consensus(route, tl, ta, sd, t, c, kw)
-                        except Exception as e:
-                            ctx.violation("consensus:%s|exception|%s" % (route, type(e).__name__), repr(e),
-                                          c.case(route=route, t=t, setting=sname))
-                            continue
-                        check_summary(c, C, route, sname, kw, ctx, {"t": t, "target": "consensus"})
+                if full_settings:
+                    combos = [(t, r) for t in ("default", menu[0]) for r in ("TreeArray.consensus_tree", "TreeList.consensus")]
+                else:
+                    combos = [("default", "TreeArray.consensus_tree"), (menu[0], "TreeList.consensus")]
+                for t, route in combos:
+                    ctx.case(("cons-setting", c.base_key, t, route, sname), nontrivial=nt)
+                    ctx.count("consensus_trees")
+                    ctx.count("summarisations")
+                    try:
+                        C = call_consensus(route, tl, ta, sd, t, c, kw)
+                    except Exception as e:
+                        ctx.violation("consensus:%s|exception|%s" % (route, type(e).__name__), repr(e),
+                                      c.case(route=route, t=t, setting=sname))
+                        continue
+                    check_summary(c, C, route, sname, kw, ctx, {"t": t, "target": "consensus"})
     # ---- (5) credibility ------------------------------------------------------------------------------
     if P["mcc"] and ok_ta:
         check_mcc(c, tl, ta, ctx)
@@ -940,14 +958,18 @@ def bounds(tier):
                "profile": "full for k<=2 (all 26 trees as targets), std for k>=3"},
         "A4_variants": {"n": 4, "k_max": 2, "variants": ["ns=reversed", "ns=removed_low", "lens=none", "lens=nd",
                                                          "rooting undefined"], "profile": "std"},
-        "A5_rooted": {"n": 5, "pool": "all 236 shapes", "k_max": 2, "lens": "pos", "profile": "lean"},
+        "A5_rooted": {"n": 5, "singletons": "all 236 shapes", "pairs": "binary shapes (105)" if q else "all 236 shapes", "lens": "pos",
+                      "profile": "lean"},
         "A5_unrooted": {"n": 5, "pool": "one drawing per unrooted topology (26)", "k_max": 3, "lens": "pos", "profile": "lean",
                         "also": None if q else "every pair of the 236 drawings"},
         "A5_rooted_triples": None if q else {"n": 5, "pool": "binary (105)", "k": 3, "profile": "lean"},
         "B_weights": {"n": [3, 4], "k_max": 3, "weight_alphabets": [[1, 2], [0.5, 3]], "use_tree_weights": [True, False],
                       "rootings": [True, False], "lens": "none",
-                      "profile": "k<=2: lean (all thresholds); k=3: lean for %s, frequency tables only for the rest" % (
-                          "multisets of binary shapes (and all of n=3)" if q else "all multisets")},
+                      "profile": ("use_tree_weights=True: lean (every threshold); False: flagoff (frequency tables, consensus at "
+                                  "default and lowest threshold)" if not q else
+                                  "k<=2 and n=3: use_tree_weights=True lean, False flagoff; n=4,k=3: lean/flagoff for multisets of binary "
+                                  "shapes with weights over {1,2}, frequency tables for every other multiset (use_tree_weights=False: "
+                                  "binary multisets only)")},
         "C_ages": {"n": [3, 4] if q else [3, 4, 5], "k_max": 3, "k3_pool": "binary for n=5%s" % (" and n=4" if q else ""),
                    "rooted_only": True, "lens": "ultra", "profile": "ages"},
         "thresholds": "complete menu per collection: attainable frequencies, midpoints, 0.5, 1.0, default",
@@ -988,14 +1010,18 @@ def chunks(tier):
                                         (True, "exact", "nd"), (False, "exact", "nd"), (None, "exact", "pos")):
                 out.append({"layer": "A", "n": 4, "k": [k], "rooted": rooted, "ns": nscfg, "lens": [lens], "pool": "all",
                             "profile": "std", "lo": lo, "hi": hi})
-    # n = 5: rooted, every pair of the 236 shapes; unrooted, quick: every multiset of <= 3 of the 26 unrooted
-    # topologies (one drawing each; all drawings are covered at n = 4), thorough: also every pair of the 236 drawings
-    for k in (1, 2):
-        total = _nmultisets(236, k)
-        for lo, hi in _slices(total, 120 if k == 1 else 250):
-            for rooted in ((True,) if q else (True, False)):
-                out.append({"layer": "A", "n": 5, "k": [k], "rooted": rooted, "ns": "exact", "lens": ["pos"], "pool": "all",
-                            "profile": "lean", "lo": lo, "hi": hi})
+    # n = 5 rooted: every single tree of the 236; quick: every pair of the 105 binary shapes, thorough: every pair of
+    # the 236.  n = 5 unrooted: every multiset of <= 3 of the 26 unrooted topologies (one drawing each; all drawings
+    # are covered at n = 4), thorough: also every pair of the 236 drawings
+    for lo, hi in _slices(236, 60):
+        out.append({"layer": "A", "n": 5, "k": [1], "rooted": True, "ns": "exact", "lens": ["pos"], "pool": "all",
+                    "profile": "lean", "lo": lo, "hi": hi})
+    pl = "binary" if q else "all"
+    total = _nmultisets(len(pool(5, pl)), 2)
+    for lo, hi in _slices(total, 150):
+        for rooted in ((True,) if q else (True, False)):
+            out.append({"layer": "A", "n": 5, "k": [2], "rooted": rooted, "ns": "exact", "lens": ["pos"], "pool": pl,
+                        "profile": "lean", "lo": lo, "hi": hi})
     for k in (1, 2, 3):
         total = _nmultisets(len(pool(5, "topo")), k)
         for lo, hi in _slices(total, 200):
@@ -1013,8 +1039,7 @@ def chunks(tier):
             for k in (1, 2, 3):
                 total = _nmultisets(np_, k)
                 for lo, hi in _slices(total, {1: 30, 2: 30, 3: 40}[k]):
-                    out.append({"layer": "B", "n": n, "k": [k], "rooted": rooted, "pool": "all", "lo": lo, "hi": hi,
-                                "full_k3": "all" if (not q or n == 3) else "binary"})
+                    out.append({"layer": "B", "n": n, "k": [k], "rooted": rooted, "pool": "all", "lo": lo, "hi": hi, "mode": tier})
     # ages (rooted, ultrametric)
     for n in ((3, 4) if q else (3, 4, 5)):
         for k in (1, 2, 3):
@@ -1052,14 +1077,20 @@ def run_chunk(chunk, ctx):
                                       "utw": True, "lens": lens, "profile": chunk["profile"]}, ctx)
             elif layer == "B":
                 allbin = all(U.is_binary(s) for s in ms)
+                small = k <= 2 or n <= 3 or chunk["mode"] == "thorough"
                 for wv in weight_vectors(k, ([1, 2], [0.5, 3])):
                     if wv is None:
                         continue  # unweighted collections are layer A
+                    first_alphabet = set(wv) <= set([1, 2])
                     for utw in (True, False):
-                        if k <= 2 or chunk["full_k3"] == "all" or allbin:
-                            prof = "lean"
+                        if small:
+                            prof = "lean" if utw else "flagoff"
+                        elif utw:
+                            prof = "lean" if (allbin and first_alphabet) else "freq"
+                        elif allbin:
+                            prof = "flagoff" if first_alphabet else "freq"
                         else:
-                            prof = "freq"
+                            continue
                         check_collection({"n": n, "rooted": chunk["rooted"], "ns": "exact", "shapes": ms, "weights": wv,
                                           "utw": utw, "lens": "none", "profile": prof}, ctx)
             elif layer == "C":
